@@ -10,10 +10,12 @@ CONSTANTS
   MaxFaults = 0
   MaxRestarts = 0
   MaxProbes = 0
+  MaxNoops = 2
   WithSettle = FALSE
   PauseAtomic = TRUE
   StartRollback = TRUE
   EntityGC = TRUE
   PollerExits = TRUE
   SharedKept = TRUE
+  JoinedStopped = TRUE
   BarrierExits = FALSE
